@@ -2,7 +2,7 @@
 from ..framework import Case, run_impl
 from .bmpref import *
 
-LEAN_MODULES = ["Op2Proofs.Props.C09"]
+LEAN_MODULES = ["Op2Proofs.Props.C09", "Op2Proofs.Props.C09_Gen"]
 RULE = ("pictures obtained through the public reader from Python-encoded BMPs: heights 0, 32, ..., 256 (thorough: ... 1024) x both "
         "scan-line orientations x palettes with 256 distinct random colours, partial colour tables (1..255 entries) x random pixels; "
         "each saved in the custom format and as a standard bitmap and loaded back through the format-detecting loader (ts.save); "
@@ -17,7 +17,9 @@ PROVED = ("C09_bytes (for every valid picture object: writeCustom f = Spec.encod
           "reader returned exactly as it was - through the u64 guards of the C12 model); C09_dispatch; C09_refuse (constraint-violating picture: save "
           "refused; ReadTileset never returns one from ANY bytes in either format; stored as a standard bitmap it is refused on load); "
           "Tileset.spec_read (the loader accepts every Spec-encoded file).  Bridging: C09_gen_layout (34 measured offsets/sizes/constants/tags), "
-          "C09_spec_constants")
+          "C09_spec_constants; Props/C09_Gen.lean (translated from the current source, for ALL field values): C09_gen_validateTileset "
+          "(Tileset::ValidateTileset = validateTs), C09_gen_tilesetHeader_validate, C09_gen_ppalHeader_validate (TilesetHeader::Validate / "
+          "PpalHeader::Validate = the header guards of the model's reader, tags as their four bytes)")
 PARTIAL = ("C09_custom_rt assumes 32*|height| <= the 1 GiB harness allocation cap; C09_bmp_same is stated for objects with the reader's invariants "
            "(everything ReadIndexed / ReadTileset / the factories return), not for hand-assembled records; the PBMP length formula and the pixel "
            "section length are tied to the source by the byte comparison only (not extracted)")
